@@ -122,8 +122,7 @@ func c10Select(b *c10B) {
 		cmd := c.Select("INBOX", nil)
 		return func() error { _, err := cmd.Wait(); return err }
 	}, true, "OK [READ-WRITE] SELECT completed",
-		"* 3 EXISTS", "* 0 RECENT", `* FLAGS (\Seen \Deleted)`, `* OK [PERMANENTFLAGS (\Seen \*)] ok`,
-		"* OK [UIDNEXT 9] ok", "* OK [UIDVALIDITY 1] ok")
+		"* 3 EXISTS", `* FLAGS (\Seen)`, `* OK [PERMANENTFLAGS (\Seen \*)] ok`, "* OK [UIDVALIDITY 1] ok")
 }
 
 func c10Scenarios() []c10Scenario {
@@ -457,4 +456,12 @@ func c10Scenarios() []c10Scenario {
 }
 
 // past failures, run first on every tier (scenario, mode, cut offset, fault)
-var c10Corpus = []c10CorpusCase{}
+var c10Corpus = []c10CorpusCase{
+	// F13: error / close / deadline inside a FETCH body literal (offset 70 = 2 bytes into the literal)
+	{"fetch-lit5", "C", 70, "rerr"}, {"fetch-lit5", "C", 70, "sclose"}, {"fetch-lit5", "N", 70, "stimeout"},
+	{"fetch-lit5", "X", 70, "werr"},
+	// F13b: tagged completion cut after "T1 OK " / between CR and LF
+	{"noop", "-", 55, "eof"}, {"noop", "-", 70, "rerr"}, {"starttls-ok", "-", 43, "eof"}, {"starttls-ok", "-", 53, "sclose"},
+	// seeded changes: orphaned continuation request; command issued after the reader exited
+	{"auth-eager", "-", 95, "eof"}, {"auth-eager", "-", 95, "sclose"}, {"login", "-", 36, "eof"},
+}
